@@ -461,17 +461,13 @@ impl Ticket {
 //@ extract ticket.rs impl /^Ticket$/ fn human_readable
 //@ props C15 C07 C19 C05
 //@ ret res
-//@ spec
-        ensures res@ == enc62_sha(self.bytes()),       //# O-A-human-readable [C15,C07,C19]
+//@ spec-file shared/human_readable.spec
 //@ end
 
 //@ extract ticket.rs impl /^Ticket$/ fn from_human_readable
 //@ props C15 C19 C05
 //@ ret res
-//@ spec
-        ensures
-            res matches Ok(tk) ==> human_readable_str@ == enc62_sha(tk.bytes()),                                   //# O-A-decode-inverse [C15,C19]
-            res is Err ==> forall|b: Seq<u8>| b.len() == 32 ==> human_readable_str@ != #[trigger] enc62_sha(b),   //# O-A-decode-rejects-non-encodings [C15,C19]
+//@ spec-file shared/from_human_readable.spec
 //@ hint start
         proof {
             let t = human_readable_str@;
@@ -490,8 +486,7 @@ impl Ticket {
 //@ extract ticket.rs impl /^Ticket$/ fn from_strings
 //@ props C13 C05
 //@ ret res
-//@ spec
-        ensures res.bytes() == sha256(utf8(ser(strs(targets@), strs(sources@), strs(command@)))),      //# O-A-from-strings [C13]
+//@ spec-file shared/from_strings.spec
 //@ hint after 1/1 /let mut factory = TicketFactory::new\(\);/
         let ghost T = strs(targets@); let ghost S = strs(sources@); let ghost C = strs(command@);
         proof { utf8_empty(); reveal_strlit("\n"); reveal_strlit("\n:\n"); assert(lines(T.subrange(0, 0)) =~= Seq::<char>::empty()); assert("\n"@ =~= NL()); assert("\n:\n"@ =~= SEP()); }
@@ -540,14 +535,12 @@ impl TicketFactory {
 //@ extract ticket.rs impl /^TicketFactory$/ fn new
 //@ props C15 C13 C05
 //@ ret res
-//@ spec
-        ensures res.acc() == Seq::<u8>::empty(),      //# O-A-new [C15]
+//@ spec-file shared/new.spec
 //@ end
 
 //@ extract ticket.rs impl /^TicketFactory$/ fn input_ticket
 //@ props C01 C15 C05
-//@ spec
-        ensures final(self).acc() == old(self).acc() + input.bytes(),      //# O-A-input-ticket [C01]
+//@ spec-file shared/input_ticket.spec
 //@ end
 
 //@ extract ticket.rs impl /^TicketFactory$/ fn input_str
@@ -563,10 +556,7 @@ impl TicketFactory {
 //@ param Tracked(w): Tracked<&mut World>
 //@ addarg 1 /file_system\.open/ Tracked(w)
 //@ rewrite 1 /format!\("\{\}", error\)/ => io_error_string(&error)
-//@ spec
-        ensures *final(w) == *old(w),
-            // the digest input is exactly the file's bytes -- whatever its size, path or age, for any chunking the reader chooses
-            res matches Ok(f) ==> old(w).files.contains_key(path@) && f.acc() == old(w).files[path@].content,      //# O-A-from-file [C15,C07]
+//@ spec-file shared/from_file.spec
 //@ loop 1 invariant
                     invariant 0 <= reader.pos() <= reader.content().len(),
                         *w == *old(w), old(w).files.contains_key(path@), reader.content() == old(w).files[path@].content,
@@ -585,8 +575,7 @@ impl TicketFactory {
 //@ extract ticket.rs impl /^TicketFactory$/ fn result
 //@ props C15 C13 C07 C05
 //@ ret res
-//@ spec
-        ensures res.bytes() == sha256(old(self).acc()),      //# O-A-result [C15,C07,C13]
+//@ spec-file shared/result.spec
 //@ end
 }
 
